@@ -516,6 +516,58 @@ def symbols_in(t, acc):
             symbols_in(x, acc)
 
 
+def ref_known(r, v):
+    if isinstance(v, tuple) and v and v[0] == "call":
+        if ("holds", v) in r.conds:
+            return ("bool", True)
+        if ("nholds", v) in r.conds:
+            return ("bool", False)
+    return v
+
+
+def ref_simplify(paths):
+    """drop conditions that are constants and paths whose conditions are constant-false (state folded to its invariant value)"""
+    out = []
+    for r in paths:
+        dead = False
+        cs = []
+        for c in r.conds:
+            if c[0] in ("holds", "nholds") and isinstance(c[1], tuple) and c[1] and c[1][0] == "bool":
+                if (c[0] == "holds") != c[1][1]:
+                    dead = True
+                continue
+            cs.append(c)
+        if not dead:
+            r.conds = cs
+            out.append(r)
+    return out
+
+
+def ref_simplify_nested(paths):
+    """as ref_simplify, keeping the inner-loop mark (number of outer conditions) right"""
+    out = []
+    for r in paths:
+        dead = False
+        cs = []
+        nc = r.mark[0] if r.mark is not None else None
+        removed_before = 0
+        for i, c in enumerate(r.conds):
+            if c[0] in ("holds", "nholds") and isinstance(c[1], tuple) and c[1] and c[1][0] == "bool":
+                if (c[0] == "holds") != c[1][1]:
+                    dead = True
+                if nc is not None and i < nc:
+                    removed_before += 1
+                continue
+            cs.append(c)
+        if dead:
+            continue
+        r.conds = cs
+        if r.mark is not None:
+            r.mark = (nc - removed_before, r.mark[1])
+        out.append(r)
+    return out
+
+
 def sig(conds, events, upd, kind, value):
     return (frozenset(norm_cond(c) for c in conds), tuple(norm(e) for e in events),
             tuple(sorted((k, repr(norm(v))) for k, v in upd.items())) if kind == "back" else (), kind,
@@ -552,6 +604,86 @@ def assignments(exp_vars, locals_, init, pnames):
     return out
 
 
+def _subst(t, m):
+    if not isinstance(t, tuple) or not t:
+        return t
+    if t in m:
+        return m[t]
+    return tuple(_subst(x, m) if isinstance(x, tuple) else x for x in t)
+
+
+def fold_invariants(loop_paths, header, inner=None):
+    """A loop-assigned local whose value before the loop is a constant and which every back edge sets to the same constant
+    (possibly via a condition of the path: `ret = cond` on a path where `cond` is false) is invariant: its header symbol is
+    replaced by the constant everywhere.  With a nested loop (`inner` header) the hypothesis covers both header symbols and is
+    checked on the entry of the inner loop and on the back edges to either header.  (Induction over the iterations; keeps
+    `ret = cond; if cond { break }` and `if cond { ret = true; break }` the same relation.)"""
+    init = {}
+    for p in loop_paths:
+        for e in p.events:
+            if e[0] == "loop" and e[1] == header:
+                init = dict(e[2])
+
+    def known(p, v):
+        if isinstance(v, tuple) and v and v[0] == "call":
+            if ("holds", v) in p.conds:
+                return ("bool", True)
+            if ("nholds", v) in p.conds:
+                return ("bool", False)
+        return v
+    backs = [p for p in loop_paths if p.kind == "back"]
+    m = {}
+    for l, k in init.items():
+        if not (isinstance(k, tuple) and k and k[0] in ("bool", "int")):
+            continue
+        hyp = {("L", l): k}
+        if inner is not None:
+            hyp[("L", l, inner)] = k
+        ok = bool(backs)
+        for p in backs:
+            cur = ("L", l, inner) if (inner is not None and any(e[0] == "loop" and e[1] == inner for e in p.events)) else ("L", l)
+            if known(p, _subst(p.env.get(l, cur), hyp)) != k:
+                ok = False
+        if inner is not None:
+            for p in loop_paths:
+                for e in p.events:
+                    if e[0] == "loop" and e[1] == inner:
+                        if _subst(dict(e[2]).get(l, ("L", l)), hyp) != k:
+                            ok = False
+        if ok:
+            m.update(hyp)
+    for p in loop_paths:
+        if p.kind == "return":
+            p.value = known(p, p.value)           # `ret = cond; if cond { break }`: the value returned is `true`
+    if not m:
+        return
+    for p in loop_paths:
+        p.conds = tuple(_subst(c, m) for c in p.conds)
+        p.events = tuple((e[0], e[1], _subst(e[2], m)) + tuple(e[3:]) if e[0] == "call" else e for e in p.events)
+        if isinstance(p.value, tuple):
+            p.value = _subst(p.value, m)
+        p.events = tuple((e[0], e[1], tuple((l, _subst(v, m)) for l, v in e[2])) + tuple(e[3:]) if e[0] == "loop" else e for e in p.events)
+        for l in list(p.env):
+            if ("L", l) in m:
+                p.env[l] = m[("L", l)]
+            else:
+                p.env[l] = _subst(p.env[l], m)
+    # conditions that became constants: drop the true ones, and the paths with a false one
+    dead = []
+    for p in loop_paths:
+        cs = []
+        for c in p.conds:
+            if c[0] in ("holds", "nholds") and isinstance(c[1], tuple) and c[1] and c[1][0] == "bool":
+                if (c[0] == "holds") != c[1][1]:
+                    dead.append(p)
+                continue
+            cs.append(c)
+        p.conds = tuple(cs)
+    for p in dead:
+        if p in loop_paths:
+            loop_paths.remove(p)
+
+
 def validate(ctx, prog, ch, idx, pnames, src_ty, K):
     key = ch.name()
     b = prog.get("%s::w%d" % (W, idx))
@@ -566,6 +698,8 @@ def validate(ctx, prog, ch, idx, pnames, src_ty, K):
         return False
     loop_paths = [p for p in paths if any(e[0] == "loop" for e in p.events)]
     hdrs = {e[1] for p in loop_paths for e in p.events if e[0] == "loop"}
+    if len(hdrs) == 1:
+        fold_invariants(loop_paths, next(iter(hdrs)))
     if not hdrs and not b.loops():
         # every path leaves after the first element (e.g. `next()` without a filtering adapter): no loop is left in the MIR.
         # The schema must then have no continuing path either, and its exits must be the function's paths.
@@ -618,10 +752,12 @@ def validate(ctx, prog, ch, idx, pnames, src_ty, K):
     # which state variables does the schema itself carry around the loop?  (a variable only assigned on the way out
     # of the loop - the result of find/all/next.., a counter in front of an always-breaking consumer - is invariant)
     V0 = {n: ("L", -1 - i) for i, (n, _) in enumerate(all_vars)}
+    inits = dict(all_vars)
     carried_names = set()
     for r in reference(ch, V0, src_ty, K):
         if r.kind == "back":
-            carried_names |= {k for k, v in r.upd.items() if v != V0[k]}
+            # (a back edge that re-assigns a constant start value - `still = pred(x)` on the path where it holds - changes nothing)
+            carried_names |= {k for k, v in r.upd.items() if v != V0[k] and ref_known(r, v) != inits.get(k)}
     ret_carried = "RET" in carried_names
     exp_vars = [(n, i) for n, i in all_vars if n in carried_names or n == "ITER"]
     if len(carried) != len(exp_vars):
@@ -649,7 +785,7 @@ def validate(ctx, prog, ch, idx, pnames, src_ty, K):
             if n not in V:
                 V[n] = initial_term(n, i, pnames)      # not loop state: keeps the value it had before the loop
         exp_sigs = {}
-        for r in reference(ch, V, src_ty, K):
+        for r in ref_simplify(reference(ch, V, src_ty, K)):
             upd = {V[k][1]: v for k, v in r.upd.items() if v != V[k] and V[k][0] == "L"}
             exp_sigs[sig(r.conds, r.events, upd, r.kind, r.value)] = r
         got_sigs = {}
@@ -717,6 +853,7 @@ def validate_nested(ctx, prog, ch, idx, pnames, src_ty, K):
         return False
     H1 = next(iter(h1s))
     H2 = next(iter(h2s)) if h2s else None
+    fold_invariants(loop_paths, H1, H2)
     all_vars = state_vars(ch)
     names = [n for n, _ in all_vars]
     # dry run of the schema: which state does it carry around which loop?
@@ -740,11 +877,12 @@ def validate_nested(ctx, prog, ch, idx, pnames, src_ty, K):
             for k, v in r.upd2.items():
                 symbols2(v, rd_o, rd_i)
     chg_i, chg_o = set(), set()
+    inits = dict(all_vars)
     for r in dry:
         if r.kind == "back2":
-            chg_i |= {k for k, v in r.upd2.items() if v != V20[k]}
+            chg_i |= {k for k, v in r.upd2.items() if v != V20[k] and ref_known(r, v) != inits.get(k)}
         if r.kind in ("back", "back1", "back2"):
-            chg_o |= {k for k, v in r.upd.items() if v != V0[k]}
+            chg_o |= {k for k, v in r.upd.items() if v != V0[k] and ref_known(r, v) != inits.get(k)}
     chg_o |= chg_i
     # ... and some path of the loop changes it (a variable only assigned on the way out of a loop is not loop state)
     inner_names = {n for i, n in enumerate(names) if (-1 - i) in rd_i and n in chg_i} if has_inner else set()
@@ -856,7 +994,7 @@ def validate_nested(ctx, prog, ch, idx, pnames, src_ty, K):
             if n not in V and n != "SUB":
                 V[n] = initial_term(n, i, pnames)      # not loop state: keeps the value it had before the loops
         exp_sigs = {}
-        for r in reference(ch, V, src_ty, K, V2):
+        for r in ref_simplify_nested(reference(ch, V, src_ty, K, V2)):
             nc, ne = r.mark if r.mark is not None else (len(r.conds), len(r.events))
             pre = {V2[k][1]: v for k, v in r.pre.items()} if V2 else {}
             if r.kind == "back2":
